@@ -35,7 +35,11 @@ def main(argv=None):
         w = json.load(open(a.replay))
         mod = importlib.import_module(w["module"])
         try:
-            diffs = mod.replay(w["witness"], w["property"])
+            if w["witness"].get("part") == "cbunit":
+                from .props import cbunit
+                diffs = cbunit.replay(w["witness"])
+            else:
+                diffs = mod.replay(w["witness"], w["property"])
         except Exception:  # noqa: BLE001
             print("REPLAY-ERROR", traceback.format_exc()[-1500:])
             return 3
@@ -48,6 +52,8 @@ def main(argv=None):
     try:
         mod = importlib.import_module(MODULES[a.prop])
         res: Result = mod.run(a.prop, a.tier, only=a.only) if a.only else mod.run(a.prop, a.tier)
+        from .props import cbunit
+        cbunit.run_into(res, a.prop)  # run-time contract check of the callback adapters this property depends on
     except Exception:  # noqa: BLE001
         res = Result(a.prop)
         res.errors.append(traceback.format_exc()[-3000:])
